@@ -29,6 +29,10 @@ fn kstr(k: usize) -> String {
         "usize::MAX".into()
     } else if k == usize::MAX - 1 {
         "usize::MAX-1".into()
+    } else if k == 1usize << 63 {
+        "1<<63".into()
+    } else if k == 1usize << 32 {
+        "1<<32".into()
     } else {
         k.to_string()
     }
@@ -194,6 +198,9 @@ pub fn alphabet(n: usize, with_huge: bool) -> Vec<Op> {
     let mut ops = vec![Op::Next, Op::NextBack, Op::Clone];
     let mut ks: Vec<usize> = (0..=n + 1).collect();
     if with_huge {
+        // values that survive neither a cast to a narrower/signed type nor "+ 1" without care
+        ks.push(1usize << 32);
+        ks.push(1usize << 63);
         ks.push(usize::MAX - 1);
         ks.push(usize::MAX);
     }
@@ -279,6 +286,9 @@ where
     let model: Vec<usize> = (0..n).collect();
     let to_e = |v: Vec<usize>| -> Vec<E> { v.into_iter().map(|i| make(i)).collect() };
     let mut ks: Vec<usize> = (0..=n + 2).collect();
+    ks.push(1usize << 32);
+    ks.push(1usize << 63);
+    ks.push((usize::MAX >> 1) + 1);
     ks.push(usize::MAX - 1);
     ks.push(usize::MAX);
     macro_rules! probe {
